@@ -245,21 +245,29 @@ Proof.
 Qed.
 
 (* additional records: only registered authoritative address records owned (exactly) by the target of an included SRV answer *)
-Theorem additional_sound st p now r x : store_ok st -> names_short st -> build_reply st p now = Some r -> In x (rp_additional r) ->
-  exists q a t, In q (qs p) /\ In a (rp_answers r) /\ srv_target (rdata_of a) = Some t /\ short_labels t -> 
-    registered st x Auth /\ (type_of_rdata (rdata_of x) = TY M_A \/ type_of_rdata (rdata_of x) = TY M_AAAA).
+Theorem additional_sound st p now r x : build_reply st p now = Some r -> In x (rp_additional r) ->
+  exists q a t, In q (qs p) /\ In a (rp_answers r) /\ srv_target (rdata_of a) = Some t /\
+    registered st x Auth /\ (type_of_rdata (rdata_of x) = TY M_A \/ type_of_rdata (rdata_of x) = TY M_AAAA) /\
+    match_qclass (rclass x) (q_class q) = true /\
+    (store_ok st -> names_short st -> short_labels t -> rname x = t).
 Proof.
-  intros Hok Hsh H Hx. unfold build_reply in H.
+  intros H Hx. unfold build_reply in H.
   destruct (List.concat (map (fun q => answers_for st q now) (qs p))) as [|a0 ar] eqn:E; [discriminate|].
   injection H as <-. cbn [rp_additional rp_answers] in *. apply dedup_in in Hx. apply in_concat in Hx. destruct Hx as (l & Hl & Hxl).
   apply in_map_iff in Hl. destruct Hl as (q & <- & Hq). apply in_concat in Hxl. destruct Hxl as (l2 & Hl2 & Hx2).
   apply in_map_iff in Hl2. destruct Hl2 as (a & <- & Ha). unfold additional_for in Hx2.
   destruct (srv_target (rdata_of a)) as [t|] eqn:Et; [|contradiction].
-  exists q, a, t. intros _. apply filter_In in Hx2. destruct Hx2 as [Hx2 Hm].
-  destruct (query_sound _ _ _ _ _ Hx2) as (k & m & v & Hin & He & Hf & _). apply auth_filter_kind in Hf. subst v.
+  exists q, a, t. split; [exact Hq|]. split.
+  { rewrite <- E. apply in_concat. exists (answers_for st q now). split; [apply in_map_iff; exists q; split; [reflexivity|exact Hq]|exact Ha]. }
+  split; [exact Et|]. apply filter_In in Hx2. destruct Hx2 as [Hx2 Hm].
+  destruct (query_sound _ _ _ _ _ Hx2) as (k & m & v & Hin & He & Hf & Hk). apply auth_filter_kind in Hf. subst v.
+  cbn [f_sub filter_authoritative] in Hk.
   split; [exists k, m; split; assumption|].
-  apply andb_prop in Hm. destruct Hm as [Hm _]. apply orb_prop in Hm. cbn [match_qtype] in Hm.
-  destruct Hm as [Hm|Hm]; apply ty_eqb_eq in Hm; [left|right]; congruence.
+  apply andb_prop in Hm. destruct Hm as [Hm Hc]. split.
+  - apply orb_prop in Hm. cbn [match_qtype] in Hm. destruct Hm as [Hm|Hm]; apply ty_eqb_eq in Hm; [left|right]; congruence.
+  - split; [exact Hc|]. intros Hok Hsh Ht. unfold store_ok in Hok. rewrite Forall_forall in Hok.
+    pose proof (Hok _ Hin (x, Auth) He) as Hkx. cbn [fst snd] in Hkx. rewrite Hk in Hkx.
+    symmetry. apply key_injective; [exact Ht|exact (Hsh _ _ _ Hin He)|exact Hkx].
 Qed.
 
 (* ================= C20: expiry ================= *)
